@@ -134,6 +134,20 @@ func (s *segment) setupIndex() (err error) {
 			return err
 		}
 	}
+	// The log is written before the index, so after a crash the log file can
+	// end with messages the index does not describe. They were never
+	// acknowledged; drop them, otherwise sequential readers would see them
+	// while their offsets are assigned a second time.
+	var indexedEnd int64
+	if lastEntry != nil {
+		indexedEnd = lastEntry.Position + int64(lastEntry.Size)
+	}
+	if s.position > indexedEnd {
+		if err := s.log.Truncate(indexedEnd); err != nil {
+			return errors.Wrap(err, "failed to truncate unindexed log tail")
+		}
+		s.position = indexedEnd
+	}
 	// If lastEntry is nil, the index is empty.
 	if lastEntry != nil {
 		s.lastOffset = lastEntry.Offset
